@@ -75,9 +75,10 @@ def main():
     ap.add_argument('--filter', default='')
     ap.add_argument('--limit', type=int, default=0)
     ap.add_argument('--third', action='store_true', help='third operator set (wrong variable of the same type)')
+    ap.add_argument('--fourth', action='store_true', help='fourth operator set (dropped operands, sibling methods/fields/constants/functions, zero results, dropped else, constant conditions)')
     ap.add_argument('--second', action='store_true', help='second operator set (swap adjacent statements, duplicate calls)')
     a = ap.parse_args()
-    muts = json.loads(subprocess.run([MUTGEN, '-dir', '/repo'] + (['-second'] if a.second else []) + (['-third'] if a.third else []), capture_output=True, text=True, check=True).stdout)
+    muts = json.loads(subprocess.run([MUTGEN, '-dir', '/repo'] + (['-second'] if a.second else []) + (['-third'] if a.third else []) + (['-fourth'] if a.fourth else []), capture_output=True, text=True, check=True).stdout)
     done = set()
     if os.path.exists(a.out):
         for l in open(a.out):
